@@ -120,7 +120,7 @@ func init() {
 
 		// runtime
 		"runtime.GC":             nop,
-		"runtime.Gosched":        func(fr *frame, a []value) value { fr.i.needSched().yieldPoint(); return nil },
+		"runtime.Gosched":        func(fr *frame, a []value) value { fr.i.needSched().gosched(); return nil },
 		"runtime.KeepAlive":      nop,
 		"runtime.SetFinalizer":   nop,
 		"runtime.GOMAXPROCS":     func(fr *frame, a []value) value { return 4 },
@@ -137,7 +137,7 @@ func init() {
 		"os.LookupEnv":           func(fr *frame, a []value) value { return tuple{"", false} },
 		"os.Getpid":              func(fr *frame, a []value) value { return 4242 },
 		"os.Hostname":            func(fr *frame, a []value) value { return tuple{"verifhost", iface{}} },
-		"time.Sleep":             func(fr *frame, a []value) value { fr.i.needSched().yieldPoint(); return nil },
+		"time.Sleep":             func(fr *frame, a []value) value { fr.i.needSched().gosched(); return nil },
 		"time.now":               extTimeNowRaw,
 		"time.runtimeNano":       func(fr *frame, a []value) value { return int64(1700000000000000000) },
 		"runtime.nanotime":       func(fr *frame, a []value) value { return int64(1700000000000000000) },
